@@ -169,6 +169,29 @@ func runMachine(t *rapid.T, prop string, rec *stats.Rec) {
 	if err := net.StartAll(); err != nil {
 		t.Fatalf("start: %v", err)
 	}
+	// before genesis the clock round is 0 and round 1 is the next one: a (perfectly valid) partial for round 2 or 3 from a
+	// member whose clock runs ahead is more than one round in the future and must be refused, round 1 is tolerated
+	if k := rapid.IntRange(0, 3).Draw(t, "preGenesisPartial"); k > 0 && cfg.N >= 2 {
+		to := rapid.IntRange(0, cfg.N-1).Draw(t, "preTo")
+		signer := (to + 1) % cfg.N
+		seed := net.Fx.Group.GenesisSeed
+		sig1 := net.Live.Sign(1, seed)
+		sig2 := net.Live.Sign(2, sig1)
+		round, prev := uint64(k), seed
+		switch k {
+		case 2:
+			prev = sig1
+		case 3:
+			prev = sig2
+		}
+		pkt := net.packet(round, prev, signAt(net.Live, int(net.Live.Indices[signer]), round, prev))
+		ev := net.Inject(to, net.Nodes[signer].Addr, pkt, fmt.Sprintf("pre-genesis-round-%d", round))
+		m.note("pre-genesis-inject(r=%d,to=%d)->%q", round, to, trunc(ev.Err, 30))
+		m.flags["pre-genesis-partial"] = true
+		if prop == "C04" && round >= 2 && ev.Err == "" {
+			m.fail(t, &Finding{"C04/future-partial-accepted", fmt.Sprintf("node %d accepted a partial for round %d before genesis (clock round 0: more than one round ahead)", to, round), nil})
+		}
+	}
 	net.NextStep()
 	net.Advance(nil, cfg.GenesisIn)
 	m.note("genesis")
@@ -190,6 +213,80 @@ func runMachine(t *rapid.T, prop string, rec *stats.Rec) {
 			net.Advance(nil, time.Duration(s)*time.Second)
 			m.note("adv(%ds)", s)
 			m.wait()
+		},
+		"catchupWalk": func(t *rapid.T) {
+			// time passes in steps of the catch-up period (what a group that fell behind lives through after an outage): catch-up
+			// timers started at different instants straddle round boundaries while ticks and syncs move the head
+			k := rapid.IntRange(2, 8).Draw(t, "steps")
+			for i := 0; i < k; i++ {
+				net.NextStep()
+				net.Advance(nil, cfg.Catchup)
+				m.wait()
+			}
+			m.note("catchupWalk(%dx%ds)", k, int(cfg.Catchup/time.Second))
+			m.flags["catchup-walk"] = true
+		},
+		"lateAggregate": func(t *rapid.T) {
+			// one node is cut off for a few rounds while the others go on (its requests are lost, what the others send it is held
+			// back); shortly before a tick the held partials of its next round arrive, so it aggregates an old round and arms its
+			// catch-up timer; the tick then lets it sync up to the clock; the timer fires between two ticks
+			if cfg.T > cfg.N-1 || cfg.Catchup < 2*time.Second || m.parted || m.queued || !m.level() {
+				t.Skip("needs a spare member, a catch-up period of 2 s or more and a level network")
+			}
+			x := nodeGen.Draw(t, "lagger")
+			if !net.Nodes[x].Up {
+				t.Skip("down")
+			}
+			for i := 0; i < cfg.N; i++ {
+				if i != x {
+					net.SetLink(x, i, LinkDrop)
+					net.SetLink(i, x, LinkQueue)
+				}
+			}
+			k := rapid.IntRange(2, 3).Draw(t, "roundsBehind")
+			for i := 0; i < k; i++ {
+				net.NextStep()
+				net.Advance(nil, cfg.Period)
+				m.wait()
+			}
+			// to one second before the next tick
+			net.NextStep()
+			net.Advance(nil, cfg.Period-time.Second)
+			m.wait()
+			hx, _ := net.Nodes[x].Head()
+			delivered := 0
+			for again := true; again; {
+				again = false
+				net.mu.Lock()
+				idx := -1
+				for i, q := range net.queue {
+					if q.ev.To == x && q.ev.Round == hx+1 {
+						idx = i
+						break
+					}
+				}
+				net.mu.Unlock()
+				if idx >= 0 {
+					net.DeliverQueued(idx)
+					delivered++
+					again = true
+				}
+			}
+			m.wait()
+			// the rest of what was held back is lost; links are back
+			for net.QueueLen() > 0 {
+				net.DropQueued(0)
+			}
+			net.SetAllLinks(LinkInline)
+			net.NextStep()
+			net.Advance(nil, time.Second) // the tick: the lagger syncs up to the clock
+			m.wait()
+			net.NextStep()
+			net.Advance(nil, cfg.Catchup-time.Second) // its catch-up timer fires before the next tick (or on it)
+			m.wait()
+			h2, _ := net.Nodes[x].Head()
+			m.note("lateAggregate(n%d,behind=%d,delivered=%d,head %d->%d)", x, k, delivered, hx, h2)
+			m.flags["late-aggregation"] = true
 		},
 		"burst": func(t *rapid.T) {
 			k := rapid.IntRange(2, 6).Draw(t, "periods")
